@@ -1,4 +1,5 @@
 import Orx.KSRun
+import Orx.GenThms.Adapt
 /-! # C13 cloned() / copied() adaptors are transparent -/
 namespace Orx.Props.C13
 open Orx Orx.KS
@@ -62,5 +63,31 @@ theorem adaptor_same_remainder (s : KSrc) (a : Adapt) (c : Cfg) (kk : Option Nat
   rw [hk]
   have hv : (withAdapt s a).valAt = s.valAt := by funext i; simp
   cases s.kind <;> simp [List.filter_append, List.filter_cons, cloneEvs_filtered, hv]
+
+
+/-! ## The source itself (translated on every run): `src/iter/cloned.rs`, `src/iter/copied.rs`, `buffered/*_buffered_chunk.rs` -/
+open Orx.RS Orx.Gen Orx.GenThms in
+/-- **Every function of the adaptors is the function of the underlying iterator**: the same atomic access on the same
+counter, the same begin index, positions, remaining length, end and skip behaviour — for every length, counter value
+and chunk size. `cloned()` clones exactly the delivered element of a single pull (chunks are cloned lazily by their
+consumer), `copied()` clones nothing, and neither destroys or moves anything (`drops` is untouched). -/
+theorem source_adaptors_transparent (len n c : Nat) (evs dr) :
+    Cloned.progress_and_get_begin_idx (cl len) n = Slice.progress_and_get_begin_idx (slice len) n ∧
+    Copied.progress_and_get_begin_idx (cl len) n = Slice.progress_and_get_begin_idx (slice len) n ∧
+    Cloned.fetch_n (cl len) n (st c evs dr) = Slice.fetch_n (slice len) n (st c evs dr) ∧
+    Copied.fetch_n (cl len) n (st c evs dr) = Slice.fetch_n (slice len) n (st c evs dr) ∧
+    Cloned.fetch_one (cl len) (st c evs dr) =
+      .ok (if c < len then some ⟨c, c⟩ else none) { st (wrapAdd c 1) (evs ++ [faa c 1]) dr with clones := if c < len then [c] else [] } ∧
+    Copied.fetch_one (cl len) (st c evs dr) = Slice.fetch_one (slice len) (st c evs dr) ∧
+    BufferedIterCloned.next ⟨⟨⟨n⟩⟩, cl len⟩ (st c evs dr) = BufferedIterSlice.next ⟨⟨n⟩, slice len⟩ (st c evs dr) ∧
+    BufferedIterCopied.next ⟨⟨⟨n⟩⟩, cl len⟩ (st c evs dr) = BufferedIterSlice.next ⟨⟨n⟩, slice len⟩ (st c evs dr) ∧
+    Cloned.skip_to_end (cl len) = Slice.skip_to_end (slice len) ∧ Copied.skip_to_end (cl len) = Slice.skip_to_end (slice len) ∧
+    Cloned.try_get_len (cl len) = Slice.try_get_len (slice len) ∧ Copied.try_get_len (cl len) = Slice.try_get_len (slice len) ∧
+    Cloned.into_seq_iter (cl len) (st c evs dr) = Slice.into_seq_iter (slice len) (st c evs dr) ∧
+    Copied.into_seq_iter (cl len) (st c evs dr) = Slice.into_seq_iter (slice len) (st c evs dr) :=
+  ⟨cloned_progress len n, copied_progress len n, cloned_fetch_n len n c evs dr, copied_fetch_n len n c evs dr,
+   cloned_fetch_one len c evs dr, copied_fetch_one len c evs dr, cloned_buffered_next len n c evs dr, copied_buffered_next len n c evs dr,
+   cloned_skip_to_end len, copied_skip_to_end len, cloned_try_get_len len, copied_try_get_len len,
+   cloned_into_seq_iter len c evs dr, copied_into_seq_iter len c evs dr⟩
 
 end Orx.Props.C13
